@@ -36,7 +36,7 @@ def opts(tier):
     o.many_segments_p = 0.02
     o.pad_p = 0.15
     o.unknown_offset_p = 0.15
-    return o
+    return gen.deepen(o, tier)
 
 
 def generate(rng, tier):
